@@ -1,7 +1,7 @@
 (* C17 — Invalid input is rejected up front, with a typed error and no side effects.
    Property theorems only; proofs live in Proofs/SettingsP.v and Proofs/PipelineP.v.
-   Naming: ..._full = what the property demands; ..._partial = proved under an explicit boolean guard
-   (the finding class); ..._refuted = the faithful model violates the full statement (witness). *)
+   Naming: ..._full = what the property demands; ..._partial = proved under an explicit boolean guard;
+   ..._refuted = the faithful model violates the full statement (witness). *)
 From Coq Require Import List String Ascii ZArith Bool.
 From AC Require Import Base.Sexp Base.Json Base.Strs Model.Names Model.Settings Model.Pipeline
   Proofs.SettingsP Proofs.PipelineP.
@@ -9,15 +9,7 @@ Import ListNotations.
 Local Open Scope string_scope.
 Local Open Scope list_scope.
 
-(* ================= full statements ================= *)
-(* accepted iff every DOCUMENTED constraint holds (names usable as Python identifiers/modules: keywords
-   excluded; fragments_module_name a module name like the others) *)
-Definition C17_accept_iff_documented_full : Prop := forall e cfg src kv r sc,
-  get_section cfg = Ok (src, kv) -> section_scalars kv = ScOk sc -> decode_client kv = Some r ->
-  ((exists c, get_client_settings e cfg = Ok c) <-> all_hold (client_constraints true e r) = true).
-Definition C17_schema_accept_iff_documented_full : Prop := forall e cfg src kv r,
-  get_section cfg = Ok (src, kv) -> decode_schema kv = Some r ->
-  ((exists g, get_graphql_schema_settings e cfg = Ok g) <-> all_hold (schema_constraints true e r) = true).
+(* ================= full statements that the faithful model violates ================= *)
 (* a schema that graphql-core's validation rejects makes the command fail *)
 Definition C17_invalid_schema_rejected_full : Prop := forall e cfg w,
   w_schema_errors w <> [] -> exists ph x, snd (run_client e cfg w) = Failed ph x.
@@ -26,32 +18,20 @@ Definition C17_typed_error_full : Prop := forall e cfg w ph x,
   snd (run_client e cfg w) = Failed ph x -> is_codegen_exn (x_cls x) = true.
 
 (* ================= accept_iff_constraints ================= *)
-(* unguarded: accepted iff the constraints the code ENFORCES hold (order-free table of independent predicates) *)
-Theorem C17_accept_iff_enforced : forall e cfg src kv r sc,
+(* accepted iff every DOCUMENTED constraint holds (order-free table of independent predicates; names usable as
+   Python identifiers/modules: keywords excluded; fragments_module_name a module name like the others).
+   Unguarded since /repo 0631414 (former finding F16). *)
+Theorem C17_accept_iff_documented : forall e cfg src kv r sc,
   get_section cfg = Ok (src, kv) -> section_scalars kv = ScOk sc -> decode_client kv = Some r ->
-  ((exists c, get_client_settings e cfg = Ok c) <-> all_hold (client_constraints false e r) = true).
+  ((exists c, get_client_settings e cfg = Ok c) <-> all_hold (client_constraints e r) = true).
 Proof. exact get_client_settings_accept_iff. Qed.
-Print Assumptions C17_accept_iff_enforced.
+Print Assumptions C17_accept_iff_documented.
 
-Theorem C17_schema_accept_iff_enforced : forall e cfg src kv r,
+Theorem C17_schema_accept_iff_documented : forall e cfg src kv r,
   get_section cfg = Ok (src, kv) -> decode_schema kv = Some r ->
-  ((exists g, get_graphql_schema_settings e cfg = Ok g) <-> all_hold (schema_constraints false e r) = true).
+  ((exists g, get_graphql_schema_settings e cfg = Ok g) <-> all_hold (schema_constraints e r) = true).
 Proof. exact get_schema_settings_accept_iff. Qed.
-Print Assumptions C17_schema_accept_iff_enforced.
-
-(* guarded by the finding class F16: no keyword among the checked names, fragments_module_name usable *)
-Theorem C17_accept_iff_documented_partial : forall e cfg src kv r sc,
-  get_section cfg = Ok (src, kv) -> section_scalars kv = ScOk sc -> decode_client kv = Some r ->
-  g_c17_client e r = true ->
-  ((exists c, get_client_settings e cfg = Ok c) <-> all_hold (client_constraints true e r) = true).
-Proof. exact get_client_settings_accept_iff_documented. Qed.
-Print Assumptions C17_accept_iff_documented_partial.
-
-Theorem C17_schema_accept_iff_documented_partial : forall e cfg src kv r,
-  get_section cfg = Ok (src, kv) -> decode_schema kv = Some r -> g_c17_schema r = true ->
-  ((exists g, get_graphql_schema_settings e cfg = Ok g) <-> all_hold (schema_constraints true e r) = true).
-Proof. exact get_schema_settings_accept_iff_documented. Qed.
-Print Assumptions C17_schema_accept_iff_documented_partial.
+Print Assumptions C17_schema_accept_iff_documented.
 
 Theorem C17_scalar_without_type_refused : forall e cfg src kv,
   get_section cfg = Ok (src, kv) -> section_scalars kv = ScMissingType ->
@@ -180,45 +160,32 @@ Definition ex_world (errs : list string) (b : build_res) : world :=
      w_query_files := [{| gf_path := "q.graphql"; gf_ok := true |}]; w_op_errors := [];
      w_ops := [{| op_name := Some "GetQ"; op_err := None |}]; w_fragments := false |}.
 Definition is_ok {A} (r : res A) : bool := match r with Ok _ => true | _ => false end.
+Definition dummy_craw : craw :=
+  {| r_base := {| b_schema_path := ""; b_url := ""; b_headers := []; b_verify := true; b_custom_ops := false;
+                  b_plugins := [] |}; r_queries_path := ""; r_pkg_name := ""; r_pkg_path := None;
+     r_client_name := ""; r_client_file := ""; r_bc_name := ""; r_bc_path := ""; r_enums := "";
+     r_inputs := ""; r_fragments := ""; r_comments := ""; r_snake := true; r_all_inputs := true;
+     r_all_enums := true; r_async := true; r_otel := false; r_files := [] |}.
 
-(* F16: a keyword is accepted although the documented constraint "client-name" is violated *)
-Theorem C17_keyword_accepted_refuted : exists e cfg r,
-  (exists src kv, get_section cfg = Ok (src, kv) /\ decode_client kv = Some r) /\
-  is_ok (get_client_settings e cfg) = true /\ violated (client_constraints true e r) = ["client-name"] /\
-  g_c17_client e r = false.
-Proof.
-  exists ex_env, (ex_cfg [("client_name", JStr "class")]).
-  eexists. split; [do 2 eexists; split; vm_compute; reflexivity|]. vm_compute. auto.
-Qed.
+(* former finding F16 (fixed in /repo 0631414), kept as regression statements: keywords and an unusable
+   fragments_module_name are refused by the settings, with the error naming the value *)
+Theorem C17_keyword_rejected :
+  get_client_settings ex_env (ex_cfg [("client_name", JStr "class")])
+    = Err (mkerr InvalidConfiguration "Provided name class cannot be used as python identifier.") /\
+  violated (client_constraints ex_env
+    (match decode_client (ex_section [("client_name", JStr "class")]) with Some r => r | None => dummy_craw end))
+    = ["client-name"].
+Proof. vm_compute. auto. Qed.
 
-(* F16: fragments_module_name is never validated *)
-Theorem C17_fragments_name_unchecked_refuted : exists e cfg r,
-  (exists src kv, get_section cfg = Ok (src, kv) /\ decode_client kv = Some r) /\
-  is_ok (get_client_settings e cfg) = true /\ violated (client_constraints true e r) = ["fragments-module-name"].
-Proof.
-  exists ex_env, (ex_cfg [("fragments_module_name", JStr "a-b")]).
-  eexists. split; [do 2 eexists; split; vm_compute; reflexivity|]. vm_compute. auto.
-Qed.
+Theorem C17_fragments_name_checked :
+  get_client_settings ex_env (ex_cfg [("fragments_module_name", JStr "a-b")])
+    = Err (mkerr InvalidConfiguration "Provided name a-b cannot be used as python identifier.").
+Proof. vm_compute. auto. Qed.
 
-Theorem C17_schema_keyword_accepted_refuted : exists e cfg r,
-  (exists src kv, get_section cfg = Ok (src, kv) /\ decode_schema kv = Some r) /\
-  is_ok (get_graphql_schema_settings e cfg) = true /\
-  violated (schema_constraints true e r) = ["schema-variable-name"].
-Proof.
-  exists ex_env, (ex_cfg [("schema_variable_name", JStr "class")]).
-  eexists. split; [do 2 eexists; split; vm_compute; reflexivity|]. vm_compute. auto.
-Qed.
-
-Theorem C17_accept_iff_documented_refuted : ~ C17_accept_iff_documented_full.
-Proof.
-  intro H.
-  destruct (H ex_env (ex_cfg [("client_name", JStr "class")]) SecTool
-              (ex_section [("client_name", JStr "class")]) _ [] eq_refl eq_refl eq_refl) as [H1 _].
-  assert (exists c, get_client_settings ex_env (ex_cfg [("client_name", JStr "class")]) = Ok c) as HA
-    by (eexists; vm_compute; reflexivity).
-  specialize (H1 HA). vm_compute in H1. discriminate.
-Qed.
-Print Assumptions C17_accept_iff_documented_refuted.
+Theorem C17_schema_keyword_rejected :
+  get_graphql_schema_settings ex_env (ex_cfg [("schema_variable_name", JStr "class")])
+    = Err (mkerr InvalidConfiguration "Provided name class cannot be used as python identifier.").
+Proof. vm_compute. auto. Qed.
 
 (* F17: an invalid schema is accepted and the package is written *)
 Theorem C17_invalid_schema_rejected_refuted : exists e cfg w,
@@ -256,13 +223,8 @@ Example C17_valid_accepted_and_written :
   snd (run_client ex_env (ex_cfg [("zzz", JInt 1)]) (ex_world [] BuildOk)) = Done /\
   no_writes (fst (run_client ex_env (ex_cfg []) (ex_world [] BuildOk))) = false /\
   typed_world (ex_world [] BuildOk) = true /\
-  all_hold (client_constraints true ex_env
-    (match decode_client (ex_section []) with Some r => r | None =>
-       {| r_base := {| b_schema_path := ""; b_url := ""; b_headers := []; b_verify := true; b_custom_ops := false;
-                       b_plugins := [] |}; r_queries_path := ""; r_pkg_name := ""; r_pkg_path := None;
-          r_client_name := ""; r_client_file := ""; r_bc_name := ""; r_bc_path := ""; r_enums := "";
-          r_inputs := ""; r_fragments := ""; r_comments := ""; r_snake := true; r_all_inputs := true;
-          r_all_enums := true; r_async := true; r_otel := false; r_files := [] |} end)) = true.
+  all_hold (client_constraints ex_env
+    (match decode_client (ex_section []) with Some r => r | None => dummy_craw end)) = true.
 Proof. vm_compute. auto. Qed.
 
 Example C17_each_phase_can_fail :
